@@ -13,6 +13,7 @@ FORMATS = {  # ext -> (HasLen, CanSeek, HasTell)
     "h5": (True, True, True), "xtc": (True, True, True), "trr": (True, True, True), "dcd": (True, True, True), "nc": (True, True, True),
     "xyz": (True, True, True), "dtr": (True, True, True), "mdcrd": (False, True, True), "lammpstrj": (False, True, True),
     "arc": (False, False, False),
+    "vcols.lammpstrj": (False, True, True),   # a legal dump whose ATOMS columns are not in the default order (id type vx vy vz x y z)
     "stale.dcd": (True, True, True),      # header NSET field disagrees with the frames present (mdtraj recomputes it from the file size)
 }
 AIDX = [0, 2, 5]
@@ -62,6 +63,15 @@ def _prepare(scratch, N, shape=0):
         trajgen.set_shape(shape, ext)
         if ext == "arc":
             ref = trajgen.make_arc(path, N)
+        elif ext == "vcols.lammpstrj":
+            n_at = trajgen.NA
+            with open(path, "w") as fh:
+                for fr in range(N):
+                    fh.write("ITEM: TIMESTEP\n%d\nITEM: NUMBER OF ATOMS\n%d\nITEM: BOX BOUNDS pp pp pp\n0.0 50.0\n0.0 60.0\n0.0 70.0\n" % (fr, n_at))
+                    fh.write("ITEM: ATOMS id type vx vy vz x y z\n")
+                    for a in range(n_at):
+                        fh.write("%d 1 %.3f %.3f %.3f %.3f %.3f %.3f\n" % (a + 1, -7.0 - a, 0.5 * fr, 3.25, (fr + 1) * 1.0, (a + 1) * 0.1, 5.0))
+            ref = [(f + 1) * 0.1 * 10.0 for f in range(N)]
         elif ext == "stale.dcd":
             import struct
             trajgen.write_file(path, N)
